@@ -126,6 +126,9 @@ func (pdb *pgDb) stop(ctx context.Context) error {
 }
 
 func (pdb *pgDb) Abort(ctx context.Context) {
+	if pdb.tx == nil {
+		return
+	}
 	logg.InfoCtxf(ctx, "aborting tx", "tx", pdb.tx)
 	pdb.tx.Rollback(ctx)
 	pdb.tx = nil
